@@ -287,17 +287,30 @@ def gen_fix(rng, n):
 
 def run_fix(inp):
     M = G.fm(inp["M"])
-    ev, evec = np.linalg.eig(M.T)
+    ev0, evec0 = np.linalg.eig(M.T)
     iso = H.Isometry(M.copy())
+    # the (repaired) code first replaces eig's basis of the fixed vectors by a Minkowski-orthogonal basis of
+    # ker(M - I) sorted by norm (svd + eigh: contracts, checked below); the ordering model sees the refined data
+    ev, evec = iso._refine_fixed_vectors(ev0, evec0)
     data = np.array(iso._fixpoint_data())
     norms = np.einsum("ki,ij,kj->k", evec.T, G.J(inp["dim"]), evec.T)
-    # which eigenvector is each returned row?
     order = []
     for row in data:
         hits = [k for k in range(len(ev)) if np.array_equal(row, evec[:, k])]
         order.append(hits)
+    # the refined fixed vectors: real columns with eigenvalue set to exactly 1 that are fixed by M
+    n = len(ev)
+    cand = [k for k in range(n) if ev[k] == 1 and np.abs(np.imag(evec[:, k])).max() == 0.0]
+    B = np.real(evec[:, cand]).T if cand else np.zeros((0, n))
+    gram = B @ G.J(inp["dim"]) @ B.T if cand else np.zeros((0, 0))
+    kdim = int(np.sum(np.linalg.svd(M.T - np.eye(n), compute_uv=False) < 1e-8))   # independent computation
     return {"abs": np.abs(ev).tolist(), "absim": np.abs(np.imag(ev)).tolist(), "norm_re": np.real(norms).tolist(),
-            "norm_im": np.imag(norms).tolist(), "order": order}
+            "norm_im": np.imag(norms).tolist(), "order": order,
+            "refine": {"count": len(cand), "kdim": kdim,
+                       "fixed": float(np.abs(B @ M - B).max()) if cand else 0.0,
+                       "offdiag": float(np.abs(gram - np.diag(np.diag(gram))).max()) if cand else 0.0,
+                       "min_norm": float(np.min(np.diag(gram))) if cand else None,
+                       "rank": int(np.linalg.matrix_rank(B, tol=1e-8)) if cand else 0}}
 
 
 def lean_fix(inp, obs):
@@ -314,6 +327,14 @@ def judge_fix(inp, obs, lr):
     e = drv_err(lr)
     if e:
         return e
+    rf = obs["refine"]
+    semisimple = inp["kind"] != "par"
+    if not (rf["rank"] == rf["kdim"] and rf["fixed"] <= 1e-8 and (not semisimple or (rf["count"] == rf["kdim"] and rf["offdiag"] <= 1e-8))):
+        return {"expected": "refinement contract: real fixed vectors spanning ker(M - I), Minkowski-orthogonal", "observed": rf,
+                "tags": dict(tags, what="refine contract")}
+    if inp["kind"] in ("rot", "par") and not (rf["count"] >= 1 and rf["min_norm"] <= 1e-8):
+        return {"expected": "elliptic / parabolic: a refined fixed vector lies in the closed light cone", "observed": rf,
+                "tags": dict(tags, what="refine in ball"), "property_failure": True}
     model = lr[0]["ok"]
     # a complex norm exactly on the threshold's real part would be decided by its imaginary part: not generated
     for pos, (hits, m) in enumerate(zip(obs["order"], model)):
@@ -336,13 +357,21 @@ def gen_o_reflect(rng, n):
                 if G.mink(d, d) > 0.3:
                     break
             ds.append((d * rng.choice([-1, 1]) * rng.uniform(0.3, 3)).tolist())
-        yield {"dim": dim, "shape": shape, "d": ds, "w": [rng.gauss(0, 1) for _ in range(dim + 1)]}
+        if rng.random() < 0.3:
+            shape = [dim + 1]          # exactly n+1 normals: needs the explicit keyword
+            ds = (ds * (dim + 1))[:dim + 1] if len(ds) < dim + 1 else ds[:dim + 1]
+            ds = [(np.array(x) * rng.uniform(0.5, 2) + np.array([0.0] + [rng.gauss(0, 0.2) for _ in range(dim)])).tolist() for x in ds]
+            ds = [x for x in ds if G.mink(np.array(x), np.array(x)) > 0.2]
+            if len(ds) < dim + 1:
+                shape, ds = [], ds[:1]
+        yield {"dim": dim, "shape": shape, "d": ds, "w": [rng.gauss(0, 1) for _ in range(dim + 1)],
+               "normals_only": rng.random() < 0.7}
 
 
 def run_o_reflect(inp):
     dim, shape = inp["dim"], tuple(inp["shape"])
     d = np.array(inp["d"]).reshape(shape + (dim + 1,))
-    Hp = H.Hyperplane(d.copy())
+    Hp = H.Hyperplane(d.copy(), normals_only=True) if inp.get("normals_only") else H.Hyperplane(d.copy())
     out = {"shape_ok": list(Hp.shape) == list(shape)}
     if not out["shape_ok"]:
         out["shape"] = list(Hp.proj_data.shape)
@@ -382,8 +411,10 @@ def run_o_reflect(inp):
 
 def judge_o_reflect(inp, obs, lr):
     cnt = int(np.prod(inp["shape"])) if inp["shape"] else 1
-    square = bool(inp["shape"]) and inp["shape"][-1] == inp["dim"] + 1
-    tags = {"composite": bool(inp["shape"]), "dim": inp["dim"], "square_shape": square, "call_site": "Hyperplane.__init__"}
+    # without the keyword an array of exactly n+1 normals is (documented) read as one hyperplane's data
+    square = bool(inp["shape"]) and inp["shape"][-1] == inp["dim"] + 1 and not inp.get("normals_only")
+    tags = {"composite": bool(inp["shape"]), "dim": inp["dim"], "square_shape": square, "call_site": "Hyperplane.__init__",
+            "normals_only": bool(inp.get("normals_only"))}
     if "exc" in obs:
         return {"expected": "hyperplane(s) and reflection(s)", "observed": obs, "tags": dict(tags, exc=obs["exc"])}
     if not obs["shape_ok"]:
@@ -593,7 +624,7 @@ def gen_o_batch(rng, n):
             elif what == "mixed_reject":
                 kind = rng.choice(["refl", "refl", "rot", "lox", "id", "two_refl", "point_refl_neg"])
             else:
-                kind = rng.choice(["lox", "lox", "lox", "rot", "par"] if dim == 2 else ["lox"])
+                kind = rng.choice(["lox", "lox", "lox", "rot", "par"])
             units.append({"kind": kind, "g": g.tolist(), "a": rng.uniform(0.3, 2.8), "t": rng.uniform(0.3, 2.5) * rng.choice([-1, 1])})
         if what == "mixed_reject" and all(u["kind"] == "refl" for u in units):
             units[rng.randrange(k)]["kind"] = "rot"
